@@ -416,6 +416,55 @@ impl Net {
 		}
 	}
 
+	/// serialized ChannelManager + every ChannelMonitor of node i, as they are right now
+	pub fn snapshot(&self, i: usize) -> (Vec<u8>, Vec<Vec<u8>>) {
+		use lightning::util::ser::Writeable;
+		let mgr = self.nodes[i].node.encode();
+		let mut mons = vec![];
+		let mut ids = self.nodes[i].chain_monitor.chain_monitor.list_monitors();
+		ids.sort();
+		for cid in ids { if let Ok(m) = self.nodes[i].chain_monitor.chain_monitor.get_monitor(cid) { mons.push(m.encode()); } }
+		(mgr, mons)
+	}
+
+	/// Restart node i from the given serialized manager and monitors (a crash: in-memory state is dropped,
+	/// peers are disconnected). Returns Err(text) if deserialization of the manager fails.
+	pub fn restart_from(&mut self, i: usize, mgr: &[u8], mons: &[Vec<u8>]) -> Result<(), String> {
+		for j in 0..self.nodes.len() { if j != i && self.connected.contains(&(i, j)) {
+			self.nodes[j].node.peer_disconnected(self.ids[i]);
+			self.connected.remove(&(i, j)); self.connected.remove(&(j, i));
+			self.q.remove(&(i, j)); self.q.remove(&(j, i));
+			self.pump(j);
+		} }
+		let config = self.nodes[i].node.get_current_config();
+		let persister: &'static test_utils::TestPersister = leak(test_utils::TestPersister::new());
+		let node = &mut self.nodes[i];
+		let new_chain_monitor: &'static test_utils::TestChainMonitor<'static> = leak(test_utils::TestChainMonitor::new(
+			Some(node.chain_source), node.tx_broadcaster, node.logger, node.fee_estimator, persister, node.keys_manager));
+		node.chain_monitor = new_chain_monitor;
+		let mon_refs: Vec<&[u8]> = mons.iter().map(|m| &m[..]).collect();
+		let r = crate::common::guarded(std::panic::AssertUnwindSafe(|| _reload_node(node, config, mgr, &mon_refs, None)));
+		match r {
+			Ok(new_mgr) => {
+				let new_mgr: &'static TestChannelManager<'static, 'static> = leak(new_mgr);
+				node.node = new_mgr;
+				node.onion_messenger.set_offers_handler(new_mgr);
+				node.onion_messenger.set_async_payments_handler(new_mgr);
+				self.persisters[i] = persister;
+				self.in_progress[i] = false;
+				// monitor_updates of the new chain monitor start empty
+				let keys: Vec<(usize, ChannelId)> = self.seen_updates.keys().filter(|k| k.0 == i).cloned().collect();
+				for k in keys { self.seen_updates.insert(k, 0); }
+				self.nodes[i].chain_monitor.added_monitors.lock().unwrap().clear();
+				self.trace.push(Obs::Event { node: i, text: "RESTARTED".to_string() });
+				self.pump(i);
+				Ok(())
+			},
+			Err(p) => Err(p.chars().take(200).collect()),
+		}
+	}
+	pub fn restart(&mut self, i: usize) -> Result<(), String> { let (m, mons) = self.snapshot(i); self.restart_from(i, &m, &mons) }
+
 	pub fn channel_dump(&self, i: usize) -> Vec<String> {
 		let mut v: Vec<String> = self.nodes[i].node.list_channels().iter().map(|c| {
 			format!("chan={} out_cap={} in_cap={} limit={} min={} ready={} usable={} out_htlcs={} in_htlcs={}", self.chan_idx(&c.channel_id), c.outbound_capacity_msat, c.inbound_capacity_msat,
